@@ -146,3 +146,52 @@ Proof.
       destruct (from_pkg_spec k Wk) as (s1 & E1 & _ & _ & M1). unfold cl_mem. rewrite E1. symmetry. exact (M1 v Fv).
     + injection H as <-. exact I.
 Qed.
+
+(* ---- merging two atoms of one version-like variable ---- *)
+From Verif Require Import SpecProv.
+Definition bopb (k : bool) : bool -> bool -> bool := if k then andb else orb.
+
+Theorem vmerge_same_sound kind name c1 c2 res : wf_clause c1 -> wf_clause c2 ->
+  vmerge_same kind name c1 c2 = Ret res ->
+  (forall s1 s2 rs, get_specifier c1 = Ret s1 -> get_specifier c2 = Ret s2 ->
+     (if kind then spec_and s1 s2 else spec_or s1 s2) = Ret rs -> Forall tilde_safe (ranges_of rs)) ->
+  forall v, final v ->
+  match res with
+  | VMFirst => clause_sem c1 v = bopb kind (clause_sem c1 v) (clause_sem c2 v)
+  | VMSecond => clause_sem c2 v = bopb kind (clause_sem c1 v) (clause_sem c2 v)
+  | VMAny => bopb kind (clause_sem c1 v) (clause_sem c2 v) = true
+  | VMEmpty => bopb kind (clause_sem c1 v) (clause_sem c2 v) = false
+  | VMAtom k => atom_sem k v = bopb kind (clause_sem c1 v) (clause_sem c2 v)
+  | VMNone => True
+  end.
+Proof.
+  intros W1 W2 H Hts v Fv. unfold vmerge_same in H.
+  destruct (parse_single c1 W1) as (s1 & Ep1 & Ef1 & _). destruct (parse_single c2 W2) as (s2 & Ep2 & Ef2 & _).
+  destruct (from_pkg_spec c1 W1) as (s1' & E1' & C1 & S1 & M1). rewrite Ef1 in E1'. injection E1' as <-.
+  destruct (from_pkg_spec c2 W2) as (s2' & E2' & C2 & S2 & M2). rewrite Ef2 in E2'. injection E2' as <-.
+  assert (Eg1 : get_specifier c1 = Ret s1) by exact Ep1. assert (Eg2 : get_specifier c2 = Ret s2) by exact Ep2.
+  rewrite Eg1, Eg2 in H. cbn [bind] in H.
+  assert (Hrs : exists rs, (if kind then Corr.P.spec_and s1 s2 else Corr.P.spec_or s1 s2) = Ret rs /\ canon rs /\ simp_ok rs
+                           /\ forall c, SE.pos c -> mem c rs = bopb kind (mem c s1) (mem c s2)).
+  { destruct kind.
+    - destruct (spec_and_spec s1 s2 C1 C2) as (rs & E & Cr & Mr). exists rs. split; [exact E|]. split; [exact Cr|]. split; [|intros c _; apply Mr].
+      apply simp_ok_iff. apply (spec_and_inv simp_ok_range GU fresh_simp_ok s1 s2 rs); [apply simp_ok_iff, S1 | apply simp_ok_iff, S2 | exact E].
+    - destruct (spec_or_spec s1 s2 C1 C2) as (rs & E & Cr & Mr). exists rs. split; [exact E|]. split; [exact Cr|]. split; [|intros c _; apply Mr].
+      apply simp_ok_iff. apply (spec_or_inv simp_ok_range GU fresh_simp_ok s1 s2 rs); [apply simp_ok_iff, S1 | apply simp_ok_iff, S2 | exact E]. }
+  destruct Hrs as (rs & Ers & Crs & Srs & Mrs). rewrite Ers in H. cbn [bind] in H.
+  assert (Tr : Forall tilde_safe (ranges_of rs)) by (apply (Hts s1 s2 rs Eg1 Eg2); destruct kind; exact Ers).
+  assert (P : SE.pos (vcut v)) by apply lt_posinf.
+  assert (Mv : mem (vcut v) rs = bopb kind (clause_sem c1 v) (clause_sem c2 v)) by (rewrite (Mrs _ P), (M1 v Fv), (M2 v Fv); reflexivity).
+  destruct (spec_eq_spec' rs s1 Crs C1) as (e1 & Ee1 & He1). assert (Ee1' : Corr.P.spec_eq rs s1 = Ret e1) by exact Ee1. rewrite Ee1' in H. cbn [bind] in H.
+  destruct e1.
+  { injection H as <-. rewrite <- Mv, <- (M1 v Fv). symmetry. apply (proj1 He1 eq_refl). exact P. }
+  destruct (spec_eq_spec' rs s2 Crs C2) as (e2 & Ee2 & He2). assert (Ee2' : Corr.P.spec_eq rs s2 = Ret e2) by exact Ee2. rewrite Ee2' in H. cbn [bind] in H.
+  destruct e2.
+  { injection H as <-. rewrite <- Mv, <- (M2 v Fv). symmetry. apply (proj1 He2 eq_refl). exact P. }
+  destruct (from_specifier name rs) as [fr| |] eqn:Efr; try discriminate H. cbn [bind] in H. injection H as <-.
+  pose proof (back_sound name rs Crs Srs Tr fr Efr) as B.
+  destruct fr as [| | |k]; try exact I.
+  - rewrite <- Mv. exact (B v Fv).
+  - rewrite <- Mv. exact (B v Fv).
+  - rewrite <- Mv. exact (B v Fv).
+Qed.
